@@ -1,4 +1,5 @@
 import XpmVerif.Proofs.IdentNeutral
+import XpmVerif.Proofs.HashRefs
 /-! C02 — the identifier ignores everything documented as outside the signature.
     All statements are about the specification `rawAt`/`rawId`/`fullId` of Model/Ident.lean, for every
     hash function.  Tags, explicit/token dependencies, launcher, workspace and run mode are not inputs of
@@ -9,30 +10,96 @@ open XpmVerif.Ident List
 
 /-- **Meta / Option / Path parameters** (`ignored`): whatever their value (unless it is a configuration
     forced in with `meta = False`), they contribute nothing to the stream. -/
-theorem ignored_parameter_neutral (cfg : Nat → List Nat) (mt : Nat → Option Bool) (a : Arg) (hi : a.ignored = true)
-    (hv : ∀ n, a.value = .ref n → mt n ≠ some false) : argStream cfg mt a = [] :=
-  argStream_of_not_included a (ignored_excluded mt a hi hv)
+theorem ignored_parameter_neutral (cfg : Nat → List Nat) (ceq : Nat → Nat → Bool) (mt : Nat → Option Bool) (a : Arg) (hi : a.ignored = true)
+    (hv : ∀ n, a.value = .ref n → mt n ≠ some false) : argStream cfg ceq mt a = [] :=
+  argStream_of_not_included a (ignored_excluded ceq mt a hi hv)
 
 /-- **generated (path) parameters** contribute nothing. -/
-theorem generated_parameter_neutral (cfg : Nat → List Nat) (mt : Nat → Option Bool) (a : Arg) (hg : a.generator = true) :
-    argStream cfg mt a = [] :=
-  argStream_of_not_included a (generator_excluded mt a hg)
+theorem generated_parameter_neutral (cfg : Nat → List Nat) (ceq : Nat → Nat → Bool) (mt : Nat → Option Bool) (a : Arg) (hg : a.generator = true) :
+    argStream cfg ceq mt a = [] :=
+  argStream_of_not_included a (generator_excluded ceq mt a hg)
 
-/-- **a parameter explicitly set to its default** contributes nothing (Python `==` after removing meta members). -/
-theorem default_valued_parameter_neutral (cfg : Nat → List Nat) (mt : Nat → Option Bool) (a : Arg) (d : Val)
-    (hc : a.constant = false) (hd : a.default = some d) (he : pyEq d (removeMeta mt a.value) = true) :
-    argStream cfg mt a = [] :=
-  argStream_of_not_included a (default_excluded mt a d hc hd he)
+/-- **a parameter explicitly set to its default** contributes nothing (`_is_default` after removing meta members:
+    Python `==`, and equality of identifiers for configuration objects). -/
+theorem default_valued_parameter_neutral (cfg : Nat → List Nat) (ceq : Nat → Nat → Bool) (mt : Nat → Option Bool) (a : Arg) (d : Val)
+    (hc : a.constant = false) (hd : a.default = some d) (he : isDefault ceq mt d (removeMeta mt a.value) = true) :
+    argStream cfg ceq mt a = [] :=
+  argStream_of_not_included a (default_excluded ceq mt a d hc hd he)
+
+/-- the former statement (Python `==`), for a default that is neither a configuration, a list nor a dict. -/
+theorem default_valued_parameter_neutral_scalar (cfg : Nat → List Nat) (ceq : Nat → Nat → Bool) (mt : Nat → Option Bool)
+    (a : Arg) (d : Val) (hc : a.constant = false) (hd : a.default = some d)
+    (hr : ∀ n, d ≠ .ref n) (hl : ∀ l, d ≠ .list l) (hdd : ∀ ks vs, d ≠ .dict ks vs)
+    (he : pyEq d (removeMeta mt a.value) = true) :
+    argStream cfg ceq mt a = [] :=
+  default_valued_parameter_neutral cfg ceq mt a d hc hd (by rw [isDefault_scalar ceq mt d _ hr hl hdd]; exact he)
+
+/-! ### configuration-valued defaults (`class A(Config): x: Param[B] = B(k=1)`)
+
+    The default object is a node `d` of the graph that only `Arg.default` refers to; `Config.__init__` stores a
+    clone of it.  `cfgAt hc g fuel (n :: stack)` / `ceqAt hc g fuel (n :: stack)` (Proofs/IsDefault.lean) are the
+    reference encoder and the `_is_default` comparison with which `rawAt hc g (fuel + 1) stack n` hashes node
+    `n` (`rawAt_succ`). -/
+
+/-- **a parameter whose value has the identifier of its configuration-valued default** — both computed in
+    the context in which the node is hashed — contributes nothing to the stream. -/
+theorem config_default_neutral {D : Type} (hc : HC D) (g : Graph) (fuel : Nat) (stack : List Nat) (n : Nat)
+    (a : Arg) (d v : Nat)
+    (hcst : a.constant = false) (hd : a.default = some (.ref d)) (hv : a.value = .ref v)
+    (hds : relIndex (n :: stack) d = none) (hvs : relIndex (n :: stack) v = none)
+    (heq : rawAt hc g fuel (n :: stack) d = rawAt hc g fuel (n :: stack) v) :
+    argStream (cfgAt hc g fuel (n :: stack)) (ceqAt hc g fuel (n :: stack)) g.mt a = [] := by
+  apply argStream_of_not_included
+  apply default_excluded _ _ a (.ref d) hcst hd
+  simp only [hv, removeMeta, isDefault]
+  rw [ceqAt_off_stack hc g fuel _ d v hds hvs, heq]
+  simp
+
+/-- **a clone has the identifier of the original**: two nodes of the same class with the same arguments and no
+    producing task, hashed under the same stack, whose (common) references are encoded identically below
+    the one and below the other, have the same raw identifier.  The last hypothesis is vacuous for a
+    configuration without sub-configuration (`B(k=1)`), and holds whenever the sub-configurations refer neither to
+    the clone nor to the original nor to the stack. -/
+theorem clone_identifier {D : Type} (hc : HC D) (g : Graph) (f : Nat) (S : List Nat) (d v : Nat)
+    (hty : (g.node d).typeId = (g.node v).typeId) (hargs : (g.node d).args = (g.node v).args)
+    (htd : (g.node d).task = none) (htv : (g.node v).task = none)
+    (hsub : ∀ m ∈ relRefs g.mt v (g.node v), relIndex (d :: S) m = relIndex (v :: S) m ∧
+      (relIndex (d :: S) m = none → rawAt hc g f (d :: S) m = rawAt hc g f (v :: S) m)) :
+    rawAt hc g (f + 1) S d = rawAt hc g (f + 1) S v := by
+  have hf : ∀ cfg ceq, nodeStream cfg ceq g.mt d (g.node d) = nodeStream cfg ceq g.mt v (g.node v) := by
+    intro cfg ceq; simp only [nodeStream, hty, hargs, htd, htv]
+  simp only [rawAt]
+  rw [hf]
+  congr 1
+  apply nodeStream_congr_ctx
+  intro m hm
+  obtain ⟨h1, h2⟩ := hsub m hm
+  exact ⟨h1, fun hk => by rw [h2 hk]⟩
+
+/-- **a parameter set to a clone of its configuration-valued default contributes nothing**: in particular
+    `A(x = B(k=1))` and `A()` are hashed identically although the value and the default object are different
+    objects. -/
+theorem config_default_clone_neutral {D : Type} (hc : HC D) (g : Graph) (f : Nat) (stack : List Nat) (n : Nat)
+    (a : Arg) (d v : Nat)
+    (hcst : a.constant = false) (hd : a.default = some (.ref d)) (hv : a.value = .ref v)
+    (hds : relIndex (n :: stack) d = none) (hvs : relIndex (n :: stack) v = none)
+    (hty : (g.node d).typeId = (g.node v).typeId) (hargs : (g.node d).args = (g.node v).args)
+    (htd : (g.node d).task = none) (htv : (g.node v).task = none)
+    (hsub : ∀ m ∈ relRefs g.mt v (g.node v), relIndex (d :: n :: stack) m = relIndex (v :: n :: stack) m ∧
+      (relIndex (d :: n :: stack) m = none → rawAt hc g f (d :: n :: stack) m = rawAt hc g f (v :: n :: stack) m)) :
+    argStream (cfgAt hc g (f + 1) (n :: stack)) (ceqAt hc g (f + 1) (n :: stack)) g.mt a = [] :=
+  config_default_neutral hc g (f + 1) stack n a d v hcst hd hv hds hvs
+    (clone_identifier hc g f (n :: stack) d v hty hargs htd htv hsub)
 
 /-- **an optional left unset** contributes nothing. -/
-theorem unset_optional_neutral (cfg : Nat → List Nat) (mt : Nat → Option Bool) (a : Arg) (hc : a.constant = false)
-    (hr : a.required = false) (hd : a.default = none) (hv : a.value = .none) : argStream cfg mt a = [] :=
-  argStream_of_not_included a (unset_optional_excluded mt a hc hr hd hv)
+theorem unset_optional_neutral (cfg : Nat → List Nat) (ceq : Nat → Nat → Bool) (mt : Nat → Option Bool) (a : Arg) (hc : a.constant = false)
+    (hr : a.required = false) (hd : a.default = none) (hv : a.value = .none) : argStream cfg ceq mt a = [] :=
+  argStream_of_not_included a (unset_optional_excluded ceq mt a hc hr hd hv)
 
 /-- **a sub-configuration flagged as meta** given as a parameter value contributes nothing … -/
-theorem meta_subconfiguration_neutral (cfg : Nat → List Nat) (mt : Nat → Option Bool) (a : Arg) (n : Nat)
-    (hv : a.value = .ref n) (hm : mt n = some true) : argStream cfg mt a = [] :=
-  argStream_of_not_included a (meta_value_excluded mt a n hv hm)
+theorem meta_subconfiguration_neutral (cfg : Nat → List Nat) (ceq : Nat → Nat → Bool) (mt : Nat → Option Bool) (a : Arg) (n : Nat)
+    (hv : a.value = .ref n) (hm : mt n = some true) : argStream cfg ceq mt a = [] :=
+  argStream_of_not_included a (meta_value_excluded ceq mt a n hv hm)
 
 /-- … **also as a list element** (at any position) … -/
 theorem meta_list_element_neutral (cfg : Nat → List Nat) (mt : Nat → Option Bool) (l1 l2 : List Val) (m : Nat)
@@ -49,10 +116,10 @@ theorem meta_dict_value_neutral (cfg : Nat → List Nat) (mt : Nat → Option Bo
 /-- **adding a new defaulted / Meta / generated parameter to a class**: a node extended with an argument
     that contributes nothing has the same stream (hence, by `neutral_edits_any_depth`, every identifier of
     every existing configuration is unchanged). -/
-theorem added_parameter_neutral (cfg : Nat → List Nat) (mt : Nat → Option Bool) (self : Nat) (nd : Node) (a : Arg)
-    (ha : argStream cfg mt a = []) :
-    nodeStream cfg mt self { nd with args := a :: nd.args } = nodeStream cfg mt self nd :=
-  nodeStream_add_excluded cfg mt self nd a ha
+theorem added_parameter_neutral (cfg : Nat → List Nat) (ceq : Nat → Nat → Bool) (mt : Nat → Option Bool) (self : Nat) (nd : Node) (a : Arg)
+    (ha : argStream cfg ceq mt a = []) :
+    nodeStream cfg ceq mt self { nd with args := a :: nd.args } = nodeStream cfg ceq mt self nd :=
+  nodeStream_add_excluded cfg ceq mt self nd a ha
 
 /-- **at any node and depth.** Two graphs with the same meta flags whose nodes have pointwise
     stream-equivalent arguments (`ArgsRel`: same names, and every argument either unchanged or changed
@@ -61,12 +128,12 @@ theorem added_parameter_neutral (cfg : Nat → List Nat) (mt : Nat → Option Bo
 theorem neutral_edits_any_depth {D : Type} (hc : HC D) (g g' : Graph) (hs : g.size = g'.size)
     (hm : g.mt = g'.mt)
     (h : ∀ n, (g.node n).typeId = (g'.node n).typeId ∧ (g.node n).task = (g'.node n).task ∧
-          ∀ cfg, ArgsRel cfg g.mt g'.mt (g.node n).args (g'.node n).args) (n : Nat) :
+          ∀ cfg ceq, ArgsRel cfg ceq g.mt g'.mt (g.node n).args (g'.node n).args) (n : Nat) :
     rawId hc g n = rawId hc g' n := by
   unfold rawId; rw [hs]
   apply rawAt_congr
-  intro k cfg
-  exact nodeStream_congr_args cfg g.mt g'.mt k _ _ (h k).1 (h k).2.1 ((h k).2.2 cfg)
+  intro k cfg ceq
+  exact nodeStream_congr_args cfg ceq g.mt g'.mt k _ _ (h k).1 (h k).2.1 ((h k).2.2 cfg ceq)
 
 /-- the full identifier is a function of the raw identifiers of the node, of its collected pre-tasks and
     of its init tasks. -/
@@ -78,8 +145,33 @@ theorem full_identifier_congruence {D : Type} (hc : HC D) (g g' : Graph)
   simp only [fullId, hp, hi, hf]
 
 /-- non-vacuity: a Meta argument with two different values, a defaulted argument set explicitly. -/
-example : argStream (fun _ => []) (fun _ => none) { name := [109], ignored := true, value := .int 5 } = [] := by decide
-example : argStream (fun _ => []) (fun _ => none) { name := [120], required := false, default := some (.int 3), value := .int 3 } = []
-    ∧ argStream (fun _ => []) (fun _ => none) { name := [120], required := false, default := some (.int 3), value := .int 4 } ≠ [] := by decide
+example : argStream (fun _ => []) (fun _ _ => false) (fun _ => none) { name := [109], ignored := true, value := .int 5 } = [] := by decide
+example : argStream (fun _ => []) (fun _ _ => false) (fun _ => none) { name := [120], required := false, default := some (.int 3), value := .int 3 } = []
+    ∧ argStream (fun _ => []) (fun _ _ => false) (fun _ => none) { name := [120], required := false, default := some (.int 3), value := .int 4 } ≠ [] := by decide
+
+/-! non-vacuity for configuration-valued defaults: `class B(Config): k: Param[int]`,
+    `class A(Config): x: Param[B] = B(k=1)`.  Node 3 is the default object of `A.x`; node 0 is `A()` (its value
+    for `x` is node 4, the clone made by `__init__`), node 1 is `A(x = B(k=1))` (node 5), node 2 is `A(x = B(k=2))`
+    (node 6). -/
+def toyHC : HC Nat :=
+  { H := fun l => l.foldl (fun a b => (a * 31 + b + 1) % 1000003) 7, emb := fun d => [256 + d], le := fun a b => a ≤ b }
+
+def argX (v : Nat) : Arg := { name := [120], required := false, default := some (.ref 3), value := .ref v }
+def nodeB (k : Int) : Node := { typeId := [66], args := [{ name := [107], value := .int k }] }
+def gDflt : Graph := { nodes := [
+  { typeId := [65], args := [argX 4] }, { typeId := [65], args := [argX 5] }, { typeId := [65], args := [argX 6] },
+  nodeB 1, nodeB 1, nodeB 1, nodeB 2] }
+
+/-- the hypotheses of `config_default_clone_neutral` hold for `A(x = B(k=1))` … -/
+example : argStream (cfgAt toyHC gDflt 7 [1]) (ceqAt toyHC gDflt 7 [1]) gDflt.mt (argX 5) = [] :=
+  config_default_clone_neutral toyHC gDflt 6 [] 1 (argX 5) 3 5 rfl rfl rfl (by decide) (by decide) rfl rfl rfl rfl
+    (by intro m hm; simp [gDflt, nodeB, Graph.node, Graph.mt, relRefs, valueRefs, defaultRefs, taskRefs, examined,
+      ignoredOut, metaOut, refsVal, dfltRefsArg] at hm)
+
+/-- … so `A()`, `A(x = B(k=1))` share their identifiers, `A(x = B(k=2))` has another one, and the parameter is
+    in the stream of the latter only. -/
+example : rawId toyHC gDflt 0 = rawId toyHC gDflt 1 ∧ rawId toyHC gDflt 1 ≠ rawId toyHC gDflt 2
+    ∧ fullId toyHC gDflt 0 = fullId toyHC gDflt 1
+    ∧ argStream (cfgAt toyHC gDflt 7 [2]) (ceqAt toyHC gDflt 7 [2]) gDflt.mt (argX 6) ≠ [] := by decide
 
 end XpmVerif.C02
